@@ -51,13 +51,15 @@ def check(ctx):
     try:
         n = 0
         optsets = [[], ["-inline", "-switch"], ["-noast"]] if ctx.tier == "quick" else [[], ["-inline"], ["-switch"], ["-inline", "-switch"], ["-noast"], ["-noast", "-inline", "-switch"]]
-        for strict, src, out, gclass, opts in itertools.product([False, True], ["file", "missing", "dir", "stdin", "stdin-dash"],
+        for strict, src, out, gclass, opts in itertools.product([False, True], ["file", "missing", "dir", "stdin", "stdin-dash", "stdin-null"],
                                                                ["unset", "named", "named-bad", "dash", "default-bad", "named-full", "dash-full"],
                                                                ["ok", "warn", "syntax", "badgo"], optsets):
             if out == "default-bad" and src not in ("file",):
                 continue
             if opts and gclass != "ok" and strict:
                 continue
+            if src == "stdin-null" and gclass != "syntax":
+                continue             # standard input is /dev/null (a character device): the empty text is not a grammar
             n += 1
             d = os.path.join(tmp, "c%d" % n)
             os.makedirs(d)
@@ -86,6 +88,8 @@ def check(ctx):
                 args.append(d)                       # opens, but ReadAll fails
             elif src == "stdin":
                 stdin = GRAMMARS[gclass]
+            elif src == "stdin-null":
+                stdin = None
             else:
                 args.append("-")
                 stdin = GRAMMARS[gclass]
@@ -95,6 +99,13 @@ def check(ctx):
                     with open("/dev/full", "w") as full:
                         pr = subprocess.run(args, cwd=d, input=(stdin if stdin is not None else ""), stdout=full, stderr=subprocess.PIPE, text=True, timeout=60)
                     rc, so, se = pr.returncode, "", pr.stderr
+                except subprocess.TimeoutExpired:
+                    rc, so, se = 124, "", ""
+            elif src == "stdin-null":
+                import subprocess
+                try:
+                    pr = subprocess.run(args, cwd=d, stdin=subprocess.DEVNULL, stdout=subprocess.PIPE, stderr=subprocess.PIPE, text=True, timeout=60)
+                    rc, so, se = pr.returncode, pr.stdout, pr.stderr
                 except subprocess.TimeoutExpired:
                     rc, so, se = 124, "", ""
             else:
@@ -175,7 +186,7 @@ def check(ctx):
                       {"broken": broken, "facts": facts}, found=False)
     ctx.coverage.update({
         "evaluations": len(cases), "distinct_nontrivial": len(nontriv), "exhaustive": True,
-        "rule": "the real peg binary over strictness x source {file, missing file, directory (read fails), stdin, '-'} x destination {default, -output FILE, unwritable FILE, '-', default that cannot be created} x grammar {valid, warned, syntax error, invalid Go} x option sets; exit status, stderr and the presence of a complete parser at each possible destination are compared with Model/Cli.v instantiated by facts regenerated from main.go; distinct = (strict, source, destination, grammar class)",
+        "rule": "the real peg binary over strictness x source {file, missing file, directory (read fails), stdin, '-', stdin = /dev/null} x destination {default, -output FILE, unwritable FILE, '-', default that cannot be created} x grammar {valid, warned, syntax error, invalid Go} x option sets; exit status, stderr and the presence of a complete parser at each possible destination are compared with Model/Cli.v instantiated by facts regenerated from main.go; distinct = (strict, source, destination, grammar class)",
         "facts": facts.split("\n")[1:5],
         "samples": cases[:2] + cases[len(cases) // 2: len(cases) // 2 + 1],
         "mismatches": len(bad),
